@@ -24,6 +24,7 @@ HERE = os.path.dirname(os.path.abspath(__file__))
 sys.path.insert(0, HERE)
 import gen      # noqa: E402
 import verus    # noqa: E402
+import kani as kanimod   # noqa: E402
 
 VERIF = gen.VERIF
 REPO = gen.REPO
@@ -172,6 +173,10 @@ def known_findings(pid):
     return out
 
 
+def replay_only_verus(replay_only):
+    return replay_only is not None and not str(replay_only).startswith('kani::')
+
+
 def check_property(pid, tier, seed, replay_only=None):
     t0 = time.time()
     props = load_json(PROPS, {})
@@ -281,6 +286,37 @@ def check_property(pid, tier, seed, replay_only=None):
                     else:
                         undecided.append('unit %s: precondition of %s looks vacuous (assert(false) at function head was not refuted)' % (u, em.name))
 
+    # ---------------------------------------------------------------- Kani side-car
+    kani_results, kani_violations = [], []
+    hs = [h for h in kanimod.load_harness_files() if pid in h.props and not (tier == 'quick' and cfg.get('kani_tier', {}).get(h.name) == 'thorough')]
+    if hs and not replay_only_verus(replay_only):
+        kres, klog, kwall = kanimod.run([h.name for h in hs], jobs=4)
+        kbase = base.get('kani', {})
+        for h in hs:
+            r = kres[h.name]
+            entry = {'harness': h.name, 'file': 'kani/' + h.file, 'appended_to': h.target, 'kind': h.kind, 'bound': h.bound,
+                     'companion_of': h.companion, 'status': r['status'], 'cbmc_checks': r['checks'], 'time_s': r['time_s'], 'backend': 'kani 0.68 / cbmc 6.11'}
+            kani_results.append(entry)
+            if r['status'] == 'SUCCESS':
+                continue
+            if r['status'] == 'FAILURE' and r['time_s'] is not None and kbase.get(h.name) == 'SUCCESS':
+                kani_violations.append(h)
+            else:
+                undecided.append('kani harness %s: %s (baseline %s) - build error, timeout or resource limit' % (h.name, r['status'], kbase.get(h.name)))
+        if kani_violations:
+            # re-run the failing harnesses sequentially with concrete playback to obtain the failing input
+            pres, plog, _ = kanimod.run([h.name for h in kani_violations], playback=True, jobs=1)
+            for h in kani_violations:
+                pr = pres[h.name]
+                confirmed, rlog = (False, '')
+                if pr['playback']:
+                    confirmed, rlog = kanimod.replay(pr['playback'], h.file)
+                pr['replayed'] = confirmed
+                pr['replay_log'] = rlog[-1500:]
+                failures.append({'unit': 'kani', 'function': h.companion or h.name, 'kind': 'kani', 'message': '; '.join(pr['failed_checks']) or 'harness failed',
+                                 'clause': 'harness %s (%s%s)' % (h.name, h.kind, (': ' + h.bound) if h.bound else ''), 'gen_line': 0,
+                                 'obligation': 'kani::%s' % h.name, 'src': h.target, 'rendered': pr['playback'] or plog[-3000:],
+                                 'playback': pr['playback'], 'kani': True, 'replayed_on_real_code': pr['replayed'], 'replay_log': pr['replay_log']})
     # ---------------------------------------------------------------- verdict
     violations, new_unproved = [], []
     kf = known_findings(pid)
@@ -290,7 +326,7 @@ def check_property(pid, tier, seed, replay_only=None):
             undecided.append('%s: %s' % (f['function'], f['message']))
             continue
         bu = base.get('units', {}).get(f['unit'], {})
-        in_base = f['function'] in bu.get('functions', {}) or f['function'] in bu.get('lemmas', [])
+        in_base = f.get('kani') or f['function'] in bu.get('functions', {}) or f['function'] in bu.get('lemmas', [])
         k = [x for x in kf if x['obligation'] and f['obligation'].startswith(x['obligation'])]
         if k:
             kf_printed.append((k[0], f))
@@ -325,9 +361,13 @@ def check_property(pid, tier, seed, replay_only=None):
             json.dump({'property': pid, 'obligation': v['obligation'], 'unit': v['unit'], 'function': v['function'],
                        'failed_clause': v['clause'], 'verifier_message': v['message'], 'verifier_output': v['rendered'],
                        'source': v['src'], 'function_text_in_repo': em_text, 'repo': repo_state(),
-                       'counterexample': None,
-                       'note': 'Verus gives no model; the obligation above was discharged on the unchanged tree '
-                               '(contracts/baseline.json) and fails on this tree with all annotations in place.',
+                       'counterexample': v.get('playback') or None,
+                       'counterexample_replayed_on_real_code': v.get('replayed_on_real_code'),
+                       'counterexample_replay_log': v.get('replay_log'),
+                       'note': ('Kani harness (compiled from the real crate) fails; counterexample = concrete playback unit test below, '
+                                'which calls the real function with the failing input.') if v.get('kani') else
+                               ('Verus gives no model; the obligation above was discharged on the unchanged tree '
+                                '(contracts/baseline.json) and fails on this tree with all annotations in place.'),
                        'replay_cmd': 'python3 engine/check.py --replay %s' % rp}, open(rp, 'w'), indent=1)
             replay_paths.append(rp)
     elif undecided:
@@ -335,6 +375,11 @@ def check_property(pid, tier, seed, replay_only=None):
 
     # ---------------------------------------------------------------- evidence
     level = cfg.get('level', 'proof')
+    # complete (loop-free, full-domain) Kani harnesses count as obligations; bounded ones never do
+    for k in kani_results:
+        if k['kind'] == 'complete':
+            obligations += 1
+            discharged += 1 if k['status'] == 'SUCCESS' else 0
     cov = {
         'obligations': obligations, 'discharged': discharged,
         'checker_cmd': ' && '.join(checker_cmds)[:4000] or 'verus (not run)',
@@ -345,6 +390,8 @@ def check_property(pid, tier, seed, replay_only=None):
         'vacuity_probes': {'required_to_fail': probe_total, 'failed_as_required': probe_ok},
         'solver_time_ms': solver_ms, 'backend': 'verus %s (z3)' % verus_version,
         'samples': samples[:8] or [{'note': 'no obligations generated'}],
+        'kani': kani_results,
+        'bounded': [k for k in kani_results if k['kind'] == 'bounded'],
         'failed_obligations': [{k: f[k] for k in ('obligation', 'function', 'message', 'clause', 'src')} for f in failures][:20],
         'undecided': undecided[:20],
         'known_findings_reported': [k[0]['line'] for k in kf_printed],
@@ -370,7 +417,7 @@ def check_property(pid, tier, seed, replay_only=None):
         print('UNDECIDED: %s' % u)
     for v, rp in zip(violations, replay_paths):
         print('  failed obligation %s\n    %s: %s\n    clause: %s' % (v['obligation'], v['src'], v['message'], v['clause'][:200]))
-        print('VIOLATION property=%s replay=%s no-failing-input-found' % (pid, rp))
+        print('VIOLATION property=%s replay=%s%s' % (pid, rp, '' if v.get('playback') else ' no-failing-input-found'))
     return rc
 
 
@@ -417,6 +464,16 @@ def rebaseline():
                 t += ['%s: trait %s re-declared with spec functions; %d method signatures compared with %s' %
                       (u, tc['trait'], len(tc['methods']), tc['src']) for tc in ur.unit.trait_checks]
         base['trusted'][pid] = sorted(set(t))
+    hs = kanimod.load_harness_files()
+    if hs and '--no-kani' not in sys.argv:
+        kres, klog, kwall = kanimod.run([h.name for h in hs], jobs=6)
+        base['kani'] = {h.name: kres[h.name]['status'] for h in hs}
+        for h in hs:
+            print('kani %-50s %s %ss' % (h.name, kres[h.name]['status'], kres[h.name]['time_s']))
+            if kres[h.name]['status'] != 'SUCCESS':
+                bad += 1
+    else:
+        base['kani'] = (load_json(BASELINE, {}) or {}).get('kani', {})
     json.dump(base, open(BASELINE, 'w'), indent=1, sort_keys=True)
     print('baseline written: %s' % BASELINE)
     return 1 if bad else 0
